@@ -19,6 +19,7 @@ def main():
     sid = prop.lower()
     checks = None
     confirm = True
+    wt_arg = None
     i = 1
     while i < len(a):
         if a[i] == '--id':
@@ -27,8 +28,10 @@ def main():
             checks = a[i + 1].split(','); i += 1
         elif a[i] == '--skip-confirm':
             confirm = False
+        elif a[i] == '--wt':
+            wt_arg = a[i + 1]; i += 1
         i += 1
-    wt = '/tmp/mut-' + prop
+    wt = wt_arg or '/tmp/mut-' + prop
     out = os.path.join(wt, 'out')
     dst = os.path.join(ROOT, 'seeded', sid)
     os.makedirs(dst, exist_ok=True)
